@@ -1102,6 +1102,8 @@ class Interp:
         if isinstance(e.slice, ast.Slice):
             return self.get_slice(base, e.slice, fr)
         key = self.eval(e.slice, fr)
+        if getattr(base, 'frame_like', False) and 'frame_getitem' in self.spec_funcs:
+            return self.spec_funcs['frame_getitem'](self, base, key)
         return self.get_item(base, key)
 
     def get_item(self, base, key):
@@ -1260,6 +1262,12 @@ class Interp:
 
     def expr_Compare(self, e, fr):
         left = self.eval(e.left, fr)
+        if len(e.ops) == 1 and 'frame_compare' in self.spec_funcs and not isinstance(e.ops[0], (ast.Is, ast.IsNot, ast.In, ast.NotIn)):
+            right = self.eval(e.comparators[0], fr)
+            if getattr(left, 'frame_like', False) or getattr(right, 'frame_like', False):
+                # elementwise comparison of a pandas object: the result is a pandas object, not a bool
+                return self.spec_funcs['frame_compare'](self, e.ops[0], left, right)
+            return VBool(self.compare(e.ops[0], left, right))
         acc = []
         for op, rhs in zip(e.ops, e.comparators):
             right = self.eval(rhs, fr)
